@@ -15,7 +15,8 @@ PROP = dict(
     rule="fragment unit: set/mutex fragment, cache ranked|lru size 1|2|3|5|9|50000, histories of 1-25 (thorough 40) operations with top() queries after generated "
          "steps; API unit: set field with cache ranked|lru size 1|2|3|5|8|50000, 1-3 shards, 8 rows, histories of 1-18 (thorough 30) writes; distinct = hash of "
          "configuration and history; non-trivial = a requested non-empty row was not in the count cache at query time (fragment unit: checked in-package; API unit: "
-         "more rows written to a shard than its cache holds), or a requested row had been emptied by a write.",
+         "more rows written to a shard than its cache holds), or a requested row had been emptied by a write; topfilter unit: 3-8 rows over a 10-column pool, every n in 1..rows x 1-3 generated "
+         "filter rows on a recalculated ranked cache, non-trivial = in rank order a row below the current minimum is followed by one above it after the heap is full.",
     assumptions=["reference model = maps (harness/pkg/_root/gfrag_machine_test.go, harness/pkg/server/c12_api_test.go)",
                  "TopN(n) is only judged after RecalculateCache(s) on shards where all rows ever written fit the cache (statement of C12)",
                  "LRU: no ordering asserted (docs: LRU order is recency)",
@@ -23,6 +24,7 @@ PROP = dict(
     tags=["gfrag", "gfapi"],
     units=[
         U("fragtop", ".", "^TestVerifC12_FragTop$", 1000, 15000, sq=6, sth=14, timeout={"quick": 900, "thorough": 2400}),
+        U("topfilter", ".", "^TestVerifC12_TopNFilterDense$", 800, 20000, sq=4, sth=10, timeout={"quick": 900, "thorough": 2400}),
         U("api", "./server", "^TestVerifC12_API$", 240, 2000, sq=4, sth=10, timeout={"quick": 900, "thorough": 2400}),
     ],
 )
